@@ -157,7 +157,7 @@ func startNode(w *world.World, status dbm.DB, val *consim.ValKey, power func(h u
 	vals := []*consim.ValKey{val}
 	// no SkipTimeoutCommit: a lone validator holding all its own precommits would run from height to height inside one call
 	n := consim.NewNet(vals, map[int]bool{}, false)
-	app := &consim.RealApp{W: w}
+	app := &consim.RealApp{W: w, FastSync: commitAsFastSync}
 	app.ValsAt = func(h uint64) []*types.Validator {
 		return []*types.Validator{{Address: val.Addr, PubKey: val.Pub, VotingPower: power(h), CoinBase: val.CoinBase}}
 	}
@@ -234,8 +234,16 @@ func keyClass(db string, key []byte) string {
 	return s
 }
 
+// commitAsFastSync: the chain of the current case reaches the application with the fast-sync flag set (a node that is catching
+// up commits through the block-sync reactor: the same CommitBlock / ApplyBlock pair as finalizeCommit, with fastsync=true).
+var commitAsFastSync bool
+
 func runCrash(t *rapid.T) {
 	vstat.Eval()
+	commitAsFastSync = rapid.IntRange(0, 2).Draw(t, "fastsync") == 0
+	if commitAsFastSync {
+		vstat.Label("blocks_committed_with_fastsync_flag")
+	}
 	s := chainsim.New(t, chainsim.Options{Contracts: true, Tokens: true, RichBalance: true})
 	defer func() { s.Close() }()
 	mode := "flat-kv"
